@@ -1,0 +1,5 @@
+//go:build !verif
+
+package jsonrpc2
+
+func verifYield(point string) {}
